@@ -8,6 +8,9 @@ import (
 // is the judge of that.
 func (g *Gen) Next() world.Event {
 	g.Step++
+	if g.FocusTTL > 0 {
+		g.FocusTTL--
+	}
 	w := g.W
 	n := w.NextN
 	for tries := 0; tries < 30; tries++ {
@@ -36,6 +39,14 @@ func (g *Gen) Next() world.Event {
 			m := w.Pool[g.R.Intn(len(w.Pool))]
 			if g.R.Intn(3) == 0 {
 				m = w.Pool[0] // oldest first, often
+			}
+			if g.FocusTTL > 0 && g.R.Intn(3) != 0 {
+				for _, pm := range w.Pool {
+					if bytesEq(pm.Rcv, g.Focus) {
+						m = pm
+						break
+					}
+				}
 			}
 			ev := world.Event{N: n, K: "deliver", ID: m.ID}
 			return g.wrap(ev)
@@ -107,11 +118,18 @@ func (g *Gen) Next() world.Event {
 				continue
 			}
 			c := w.U.Contracts[g.R.Intn(len(w.U.Contracts))]
+			if len(w.LastCredited) == 32 && g.R.Intn(3) != 0 {
+				c = w.LastCredited // the contract that just accepted a delivery
+			}
+			g.Focus, g.FocusTTL = c, 6
 			// world assumption: a contract that may have cross-shard transfers in flight by direct call
 			// stays payable (C09 forbids the refund C01 demands otherwise); so upgrades only change
 			// contracts that hold nothing in flight towards them as refunds: approximated by never
 			// downgrading a payable contract that has sent anything (callTypeFor reads the table at send time)
 			st := g.R.Intn(3)
+			if w.Nodes[0].Pay.StateOf(c) == world.Payable && g.R.Intn(3) != 0 {
+				st = world.NonPayable
+			}
 			return world.Event{N: n, K: "upgrade", ID: hexs(c), Epoch: uint32(st)}
 		case "corrupt":
 			return world.Event{N: n, K: "probe", Probe: "corrupt", PSeed: g.R.Int63()}
@@ -155,4 +173,16 @@ func hexs(b []byte) string {
 		out = append(out, hexd[c>>4], hexd[c&15])
 	}
 	return string(out)
+}
+
+func bytesEq(a, b []byte) bool {
+	if len(a) != len(b) {
+		return false
+	}
+	for i := range a {
+		if a[i] != b[i] {
+			return false
+		}
+	}
+	return true
 }
